@@ -210,7 +210,7 @@ class AsyncPettingZooVecEnv(PettingZooVecEnv):
                 f"The call to `reset_wait` has timed out after {timeout} second(s)."
             )
 
-        info_data, successes = zip(*[pipe.recv() for pipe in self.parent_pipes])
+        info_data, successes = zip(*[self._recv(pipe) for pipe in self.parent_pipes])
         self._raise_if_errors(successes)
 
         infos = {}
@@ -281,7 +281,7 @@ class AsyncPettingZooVecEnv(PettingZooVecEnv):
         successes = []
         infos = {}
         for env_idx, pipe in enumerate(self.parent_pipes):
-            env_step_return, success = pipe.recv()
+            env_step_return, success = self._recv(pipe)
             successes.append(success)
             if success:
                 for agent in self.agents:
@@ -371,7 +371,7 @@ class AsyncPettingZooVecEnv(PettingZooVecEnv):
                 f"The call to `call_wait` has timed out after {timeout} second(s)."
             )
 
-        results, successes = zip(*[pipe.recv() for pipe in self.parent_pipes])
+        results, successes = zip(*[self._recv(pipe) for pipe in self.parent_pipes])
         self._raise_if_errors(successes)
         self._state = AsyncState.DEFAULT
         return results
@@ -476,6 +476,15 @@ class AsyncPettingZooVecEnv(PettingZooVecEnv):
                 pipe.close()
         for process in self.processes:
             process.join()
+
+    def _recv(self, pipe: Connection) -> Any:
+        """Receive a worker's reply. A worker that died without answering (e.g. killed)
+        cannot complete the pending call: give it up so that the environment can still be closed."""
+        try:
+            return pipe.recv()
+        except (EOFError, OSError):
+            self._state = AsyncState.DEFAULT
+            raise
 
     def _poll_pipe_envs(self, timeout: Optional[float] = None) -> bool:
         self._assert_is_running()
